@@ -24,6 +24,9 @@ type TPJ struct {
 	Uint64   []uint64 `json:"uint64_data,omitempty"`
 	Raw      []int    `json:"raw,omitempty"`
 	HasRaw   bool     `json:"has_raw,omitempty"`
+	// the fields that carry nothing are EMPTY, non-nil slices (a TensorProto built in Go, proto.Equal to the
+	// one with nil fields): not part of the JSON - the model sees the same tensor
+	EmptyFields bool `json:"-"`
 }
 
 func (t *TPJ) proto() *onnx.TensorProto {
@@ -38,6 +41,29 @@ func (t *TPJ) proto() *onnx.TensorProto {
 		tp.RawData = make([]byte, len(t.Raw))
 		for i, b := range t.Raw {
 			tp.RawData[i] = byte(b)
+		}
+	}
+	if t.EmptyFields {
+		if tp.FloatData == nil {
+			tp.FloatData = []float32{}
+		}
+		if tp.Int32Data == nil {
+			tp.Int32Data = []int32{}
+		}
+		if tp.Int64Data == nil {
+			tp.Int64Data = []int64{}
+		}
+		if tp.DoubleData == nil {
+			tp.DoubleData = []float64{}
+		}
+		if tp.Uint64Data == nil {
+			tp.Uint64Data = []uint64{}
+		}
+		if tp.StringData == nil {
+			tp.StringData = [][]byte{}
+		}
+		if tp.RawData == nil {
+			tp.RawData = []byte{}
 		}
 	}
 	return tp
@@ -206,6 +232,7 @@ func genC12(e *emitter, tier string) {
 			// raw encoding, exact and perturbed lengths
 			exact := leBytes(vals, w)
 			e.emit(decodeCase("raw-exact", &TPJ{DataType: code, Dims: dims, Raw: exact, HasRaw: true}))
+			e.emit(decodeCase("raw-exact:empty-slices", &TPJ{DataType: code, Dims: dims, Raw: exact, HasRaw: true, EmptyFields: true}))
 			if len(exact) > 0 {
 				e.emit(decodeCase("raw-short-byte", &TPJ{DataType: code, Dims: dims, Raw: exact[:len(exact)-1], HasRaw: true}))
 				e.emit(decodeCase("raw-short-elem", &TPJ{DataType: code, Dims: dims, Raw: exact[:len(exact)-w], HasRaw: true}))
@@ -217,6 +244,9 @@ func genC12(e *emitter, tier string) {
 			t := &TPJ{DataType: code, Dims: dims}
 			if typedField(t, code, vals) {
 				e.emit(decodeCase("typed-exact", t))
+				te := *t
+				te.EmptyFields = true
+				e.emit(decodeCase("typed-exact:empty-slices", &te))
 				if n > 0 {
 					t2 := &TPJ{DataType: code, Dims: dims}
 					typedField(t2, code, vals[:n-1])
@@ -284,6 +314,18 @@ func genC12(e *emitter, tier string) {
 			g := &GraphJ{Inputs: []VInfoJ{{Name: "x", Dt: "f32", Dims: []any{2}}}, Inits: is,
 				Nodes: []NodeJ{{Op: "Relu", Ins: []string{"x"}, Outs: []string{"y"}}}, Outputs: append([]string{"y"}, outs...)}
 			e.emit(graphCase("identical-payloads", g, []NamedT{{"x", vals("f32", []int{2}, 1, -1)}}))
+		}
+	}
+	// an initializer that is ALSO listed among the graph inputs, with a declaration of the same element count and
+	// other extents / another rank (or the same): the weight keeps the shape ITS TensorProto declares
+	for _, decl := range [][]any{{3, 2}, {1, 6}, {6}, {2, 3}, {6, 1}, {1, 2, 3}, {2, "N"}} {
+		for _, raw := range []bool{false, true} {
+			w := InitJ{Name: "w", T: seqT("f32", []int{2, 3}, func(i int) float64 { return float64(i) - 2 }), Raw: raw}
+			g := &GraphJ{Inputs: []VInfoJ{{Name: "x", Dt: "f32", Dims: []any{2}}, {Name: "w", Dt: "f32", Dims: decl}}, Inits: []InitJ{w},
+				Nodes: []NodeJ{{Op: "Relu", Ins: []string{"x"}, Outs: []string{"y"}}, {Op: "Abs", Ins: []string{"w"}, Outs: []string{"a"}}, {Op: "Shape", Ins: []string{"w"}, Outs: []string{"s"}},
+					{Op: "Transpose", Attrs: []Attr{{Name: "perm", Type: "ints", Ints: []int64{1, 0}}}, Ins: []string{"w"}, Outs: []string{"t"}}},
+				Outputs: []string{"y", "a", "s", "t"}}
+			e.emit(graphCase("initializer-declared-as-input", g, []NamedT{{"x", vals("f32", []int{2}, 1, -1)}}))
 		}
 	}
 	// whole models: one initializer among several that cannot be decoded (count mismatch, unsupported element
